@@ -114,19 +114,29 @@ HARNESSES = [
     # ---- H01.tables
     tab_h("len", "H_LEN", "harness_len", ["BS_N=6"], {}, {"read_length_value.0": 47, "ref_length.0": 47},
           "read_length_value from any position of an arbitrary 48-bit string of any length (unary extensions up to 45)", units="read_length_value"),
-    tab_h("temp", "H_TEMP", "harness_temp", ["BS_N=8"], {"lib/tree_decode.c": ["build_tree"]},
-          {"read_length_value.0": 62, "ref_length.0": 62, "read_temp_table.0": 5, "read_temp_table.1": 33, "harness_temp.0": 37, "harness_temp.1": 5, "harness_temp.2": 33, "read_from_tree.0": 2},
-          "read_temp_table on an arbitrary bit string of <= 64 bits starting at any alignment: every n, skip field, extension (complete tables up to 19 entries fit; longer ones checked up to truncation)", units="read_temp_table,read_length_value"),
-    tab_h("code", "H_CODE", "harness_code", ["BS_N=8", "NC=24"], {"lib/tree_decode.c": ["build_tree", "read_from_tree"]},
+    tab_h("temp", "H_TEMP", "harness_temp", ["BS_N=4", "LENSTUB"], {"lib/tree_decode.c": ["build_tree"], "lib/lh_new_decoder.c": ["read_length_value"]},
+          {"read_temp_table.0": 5, "read_temp_table.1": 33, "harness_temp.0": 37, "harness_temp.1": 34, "harness_temp.2": 5, "harness_temp.3": 33, "read_from_tree.0": 2},
+          "read_temp_table: every n 0..31, every skip field, arbitrary length values 0..255, any bit alignment, truncation anywhere", units="read_temp_table",
+          extra_stubs=["read_length_value: arbitrary pre-drawn value per call, no bits consumed, call positions logged (real function vs format: tables.len)"]),
+    tab_h("temp.real", "H_TEMP", "harness_temp", ["BS_N=4", "NMAXT=4"], {"lib/tree_decode.c": ["build_tree"]},
+          {"read_length_value.0": 31, "ref_length.0": 31, "read_temp_table.0": 5, "read_temp_table.1": 6, "harness_temp.0": 37, "harness_temp.1": 5, "harness_temp.2": 6, "read_from_tree.0": 2},
+          "read_temp_table with the real read_length_value on an arbitrary <= 32-bit string, tables of n <= 4 entries (skip field included), unary extensions of any length", units="read_temp_table,read_length_value", tier="thorough", timeout=1800),
+    tab_h("code", "H_CODE", "harness_code", ["BS_N=6", "NC=24"], {"lib/tree_decode.c": ["build_tree", "read_from_tree"]},
           {"read_code_table.0": 27, "read_code_table.1": 27, "harness_code.0": 27, "harness_code.1": 27, "harness_code.2": 27, "harness_code.3": 27, "real_read_from_tree.0": 2},
-          "read_code_table with NUM_CODES = 24 (template instantiated small): arbitrary n <= 24, arbitrary temp-symbol sequence 0..30, arbitrary extra bits in a <= 64-bit string: all three zero-run classes incl. runs clipped at the table end",
-          units="read_code_table,read_skip_count", extra_stubs=["read_from_tree(temp tree): arbitrary pre-drawn symbol sequence 0..30, consumed identically by the reference"]),
-    tab_h("off4", "H_OFF", "harness_off", ["BS_N=8", "OB=4"], {"lib/tree_decode.c": ["build_tree"]},
-          {"read_length_value.0": 62, "ref_length.0": 62, "read_offset_table.0": 18, "harness_off.0": 18, "harness_off.1": 18, "read_from_tree.0": 2},
-          "read_offset_table with OFFSET_BITS 4 (-lh4/5-) on an arbitrary <= 64-bit string: every n 0..15", units="read_offset_table,read_length_value"),
-    tab_h("off5", "H_OFF", "harness_off", ["BS_N=13", "OB=5"], {"lib/tree_decode.c": ["build_tree"]},
-          {"read_length_value.0": 102, "ref_length.0": 102, "read_offset_table.0": 34, "harness_off.0": 34, "harness_off.1": 34, "read_from_tree.0": 2},
-          "read_offset_table with OFFSET_BITS 5 (-lh6/7/x-) on an arbitrary <= 104-bit string: every n 0..31", units="read_offset_table,read_length_value", tier="thorough", timeout=1800),
+          "read_code_table with NUM_CODES = 24 (template instantiated small): arbitrary n <= 24, arbitrary temp-symbol sequence 0..30, arbitrary extra bits in a <= 48-bit string: all three zero-run classes incl. runs clipped at the table end",
+          units="read_code_table,read_skip_count", extra_stubs=["read_from_tree(temp tree): arbitrary pre-drawn symbol sequence 0..30, consumed identically by the reference"], timeout=600),
+    tab_h("off4", "H_OFF", "harness_off", ["BS_N=4", "OB=4", "LENSTUB"], {"lib/tree_decode.c": ["build_tree"], "lib/lh_new_decoder.c": ["read_length_value"]},
+          {"read_offset_table.0": 18, "harness_off.0": 18, "harness_off.1": 66, "harness_off.2": 18, "read_from_tree.0": 2},
+          "read_offset_table with OFFSET_BITS 4 (-lh4/5-): every n 0..15, arbitrary length values, any alignment, truncation", units="read_offset_table", extra_stubs=["read_length_value: arbitrary pre-drawn value per call, no bits consumed, call positions logged (real function vs format: tables.len)"]),
+    tab_h("off5", "H_OFF", "harness_off", ["BS_N=4", "OB=5", "LENSTUB"], {"lib/tree_decode.c": ["build_tree"], "lib/lh_new_decoder.c": ["read_length_value"]},
+          {"read_offset_table.0": 34, "harness_off.0": 34, "harness_off.1": 66, "harness_off.2": 34, "read_from_tree.0": 2},
+          "read_offset_table with OFFSET_BITS 5 (-lh6/7/x-): every n 0..31, arbitrary length values", units="read_offset_table", extra_stubs=["read_length_value: arbitrary pre-drawn value per call, no bits consumed, call positions logged (real function vs format: tables.len)"]),
+    tab_h("off6", "H_OFF", "harness_off", ["BS_N=4", "OB=6", "LENSTUB"], {"lib/tree_decode.c": ["build_tree"], "lib/lh_new_decoder.c": ["read_length_value"]},
+          {"read_offset_table.0": 66, "harness_off.0": 66, "harness_off.1": 66, "harness_off.2": 66, "read_from_tree.0": 2},
+          "read_offset_table with OFFSET_BITS 6 (-lk7-): every n 0..63, arbitrary length values", units="read_offset_table", extra_stubs=["read_length_value: arbitrary pre-drawn value per call, no bits consumed, call positions logged (real function vs format: tables.len)"]),
+    tab_h("off.real", "H_OFF", "harness_off", ["BS_N=4", "OB=4", "NMAXO=3"], {"lib/tree_decode.c": ["build_tree"]},
+          {"read_length_value.0": 31, "ref_length.0": 31, "read_offset_table.0": 5, "harness_off.0": 18, "harness_off.1": 5, "read_from_tree.0": 2},
+          "read_offset_table with the real read_length_value on an arbitrary <= 32-bit string, n <= 3", units="read_offset_table,read_length_value", tier="thorough", timeout=900),
     tab_h("blockhdr", "H_BLOCKHDR", "harness_blockhdr", ["BS_N=4"], {"lib/tree_decode.c": ["build_tree"], "lib/lh_new_decoder.c": ["read_temp_table", "read_code_table", "read_offset_table"]},
           {}, "start_new_block on an arbitrary <= 32-bit string; the three table readers replaced by recording stubs with arbitrary results", units="start_new_block",
           extra_stubs=["read_temp_table/read_code_table/read_offset_table: record call order, return arbitrary success/failure (each verified by its own tables.* harness)"]),
